@@ -100,6 +100,22 @@ Theorem C06_typed_programs_never_ill_typed : forall (fadd fmul fdiv : Z -> Z -> 
   Forall (fun r => fst r <> XRet (XO OBad)) (xrun fadd fmul fdiv of_int init_state prog).
 Proof. intros fadd fmul fdiv of_int prog. exact (HeapExtSpecs.no_obad_run fadd fmul fdiv of_int prog init_state Reachable.init_wf Acyclic.init_acyclic). Qed.
 
+(* KeyOf / KeyExists / Empty on any state: observers leave the state alone; KeyOf panics EXACTLY when no field holds a Go-equal
+   value; a key the runtime hands back is accepted exactly when that key holds such a value (any enumeration order), and every
+   other answer of the runtime is rejected by the model (OBad), never silently accepted *)
+Theorem C06_keyof_step : forall s r v answer id kvs x, reg_obj s r = Some (id, kvs) -> eval_operand (st_env s) v = Some x ->
+  fst (step_core s (OKeyOf r v answer)) = s /\
+  (snd (step_core s (OKeyOf r v answer)) = Pan <-> answer = None /\ o_contains kvs x = false) /\
+  (forall k, snd (step_core s (OKeyOf r v answer)) = Ret (OV (HStr k)) <->
+     answer = Some k /\ exists y, alookup k kvs = Some y /\ hval_go_eq y x = true) /\
+  (snd (step_core s (OKeyOf r v answer)) = Ret OBad <->
+     match answer with Some k => forall y, alookup k kvs = Some y -> hval_go_eq y x = false | None => o_contains kvs x = true end).
+Proof. exact keyof_step. Qed.
+Theorem C06_keyexists_empty_step : forall s r id kvs k, reg_obj s r = Some (id, kvs) ->
+  step_core s (OKeyExists r k) = (s, Ret (OB (match alookup k kvs with Some _ => true | None => false end))) /\
+  step_core s (OEmpty r) = (s, Ret (OB (Nat.eqb (length kvs) 0))).
+Proof. exact keyexists_empty_count_step. Qed.
+
 Print Assumptions C06_set.
 Print Assumptions C06_set_lookup.
 Print Assumptions C06_set_odd_panics.
@@ -121,3 +137,5 @@ Print Assumptions C06_new_from_appends.
 Print Assumptions C06_new_from_content.
 Print Assumptions C06_new_from_leaf_by_reference.
 Print Assumptions C06_typed_programs_never_ill_typed.
+Print Assumptions C06_keyof_step.
+Print Assumptions C06_keyexists_empty_step.
